@@ -262,7 +262,16 @@ func DrawDir(prop, tier string, ch *Chooser, lean bool, s *Sim) *Dir {
 		case 10:
 			op.Kind, op.DN = "search-group", groupDN(ch.Choose(3))
 		default:
-			switch ch.Choose(4) {
+			switch ch.Choose(5) {
+			case 4:
+				// the caller keeps what Users() gave it, sets other users and
+				// then puts the old ones back: nothing has changed
+				op.Kind = "swap-users"
+				for j := 0; j < pool; j++ {
+					if ch.Choose(2) == 1 {
+						op.Users = append(op.Users, dEntry{DN: userDN(j), Attrs: drawAttrs(ch, true)})
+					}
+				}
 			case 3:
 				op.Kind = "set-tokengroups" // concerns <SID=...> searches only
 			case 0:
@@ -521,6 +530,10 @@ func (d *Dir) drive(w *simrt.World) {
 			dir.SetGroups(entries(op.Users)...)
 		case "set-anon":
 			dir.SetAllowAnonymousBind(op.Anon)
+		case "swap-users":
+			saved := dir.Users()
+			dir.SetUsers(entries(op.Users)...)
+			dir.SetUsers(saved...)
 		case "set-tokengroups":
 			dir.SetTokenGroups(map[string][]*gldap.Entry{"S-1-1": {gldap.NewEntry("cn=tg,"+dirGroupDN, map[string][]string{"cn": {"tg"}})}})
 		}
